@@ -1,6 +1,105 @@
-import Driver.Common
-namespace Rtp.Kinds.H264
-open Rtp Rtp.Proto
+/-
+  Driver/Kinds/H264.lean — case kinds of the H264 group (C10, C15 H264 half, C08/C09 H264 parts).
 
-def handlers : List (String × Handler) := []
+  c10.rt    <disable> <avc> <ncalls> (<mtu> <bare> <nunits> (<four> <nal>)*)*
+            => panic | ok <ncalls> (<npkts> (<payload> <head> <res>)*)*
+  c10.dec   <avc> <nitems> (s <nal> | a <hdr> <rfc> <n> <nal>* | f <hdr> <n> <chunk>*)*
+            => panic | ok <npkts> (<payload> <head> <res>)*
+  c15.h264  <avc> <npre> <payload>* <nframe> <payload>*
+            => panic | ok <n> <res>* <n> <res>*
+  c08.h264  <n> <disable>* <calls> => <n> PayObs*      (DisableStapA per call)
+  c09.h264  <zeroAlloc> <avc> <n> <obytes>* => <n> (<res> <isAVC> <head> <tail0> <tail1> <auxPanic> <freshSame> <twinSame>)*
+-/
+import Driver.Common
+import Rtp.Model.H264Obs
+namespace Rtp.Kinds.H264
+open Rtp Rtp.Proto Rtp.Pred Rtp.Model.H264 Rtp.Model.H264.Obs Rtp.Spec.Rfc6184
+
+/-! ### readers -/
+def rdRtCall : Rd C10.RtCall := do
+  let m ← Rd.u16; let b ← Rd.bool
+  let us ← Rd.list (do let f ← Rd.bool; let n ← Rd.bytes; pure (f, n))
+  pure { mtu := m, bare := b, units := us }
+
+def rdRtInput : Rd C10.RtInput := do
+  let d ← Rd.bool; let a ← Rd.bool; let cs ← Rd.list rdRtCall
+  pure { disable := d, avc := a, calls := cs }
+
+def rdPkt : Rd C10.PktObs := do
+  let p ← Rd.bytes; let h ← Rd.bool; let r ← Rd.resC Rd.bytes
+  pure { payload := p, head := h, res := r }
+
+def rdRtObs : Rd C10.RtObs := do
+  let t ← Rd.tok
+  match t with
+  | "panic" => pure { panicked := true, calls := [] }
+  | "ok" => do let cs ← Rd.list (Rd.list rdPkt); pure { panicked := false, calls := cs }
+  | _ => Rd.fail
+
+def rdItem : Rd Item := do
+  let t ← Rd.tok
+  match t with
+  | "s" => do let n ← Rd.bytes; pure (.single n)
+  | "a" => do
+    -- <hdr> <rfc> <n> <nal>*: with rfc = 1 the Go encoder claims to have followed the RFC's
+    -- F/NRI rule; a header different from `Spec.Rfc6184.stapHdr` is then a protocol error (the two
+    -- independently written encoders disagree), reported loudly by the driver
+    let h ← Rd.u8; let rfc ← Rd.bool; let ns ← Rd.list Rd.bytes
+    if rfc && h != stapHdr ns then Rd.fail else pure (.stapA h ns)
+  | "f" => do let h ← Rd.u8; let cs ← Rd.list Rd.bytes; pure (.fuA h cs)
+  | _ => Rd.fail
+
+def rdDecInput : Rd C10.DecInput := do
+  let a ← Rd.bool; let p ← Rd.list rdItem
+  pure { avc := a, plan := p }
+
+def rdDecObs : Rd C10.DecObs := do
+  let t ← Rd.tok
+  match t with
+  | "panic" => pure { panicked := true, pkts := [] }
+  | "ok" => do let ps ← Rd.list rdPkt; pure { panicked := false, pkts := ps }
+  | _ => Rd.fail
+
+def rdC15Input : Rd C15H264.Input := do
+  let a ← Rd.bool; let pre ← Rd.list Rd.bytes; let fr ← Rd.list Rd.bytes
+  pure { avc := a, pre := pre, frame := fr }
+
+def rdC15Obs : Rd C15H264.Obs := do
+  let t ← Rd.tok
+  match t with
+  | "panic" => pure { panicked := true, after := [], fresh := [] }
+  | "ok" => do
+    let a ← Rd.list (Rd.resC Rd.bytes); let f ← Rd.list (Rd.resC Rd.bytes)
+    pure { panicked := false, after := a, fresh := f }
+  | _ => Rd.fail
+
+def rdH264DepObs : Rd (C09.DepObs Bool) := do
+  let r ← Rd.resC Rd.bytes
+  let md ← Rd.bool; let h ← Rd.bool; let t0 ← Rd.bool; let t1 ← Rd.bool
+  let ap ← Rd.bool; let fs ← Rd.bool; let tw ← Rd.bool
+  pure { res := r, md := md, head := h, tail0 := t0, tail1 := t1, auxPanic := ap, freshSame := fs, twinSame := tw }
+
+/-! ### handlers -/
+def rt : Handler :=
+  mkHandler rdRtInput rdRtObs rtModel C10.rtOk (fun i => i.wf)
+
+def dec : Handler :=
+  mkHandler rdDecInput rdDecObs decModel C10.decOk (fun i => i.wf)
+
+def c15 : Handler :=
+  mkHandler rdC15Input rdC15Obs c15Model C15H264.ok (fun i => i.wf)
+
+def c08 : Handler :=
+  mkHandler (do let fs ← Rd.list Rd.bool; let cs ← rdCalls; pure (fs, cs)) rdPayObsList
+    (fun (fs, cs) => c08Model fs cs)
+    (fun (_, cs) os => C08.histOk false cs os)
+
+def c09 : Handler :=
+  mkHandler (do let z ← Rd.bool; let a ← Rd.bool; let ps ← Rd.list Rd.obytes; pure (z, a, ps))
+    (Rd.list rdH264DepObs)
+    (fun (z, a, ps) => c09Calls z a [] ps)
+    (fun _ os => C09.histOk false os)
+
+def handlers : List (String × Handler) :=
+  [("c10.rt", rt), ("c10.dec", dec), ("c15.h264", c15), ("c08.h264", c08), ("c09.h264", c09)]
 end Rtp.Kinds.H264
